@@ -122,9 +122,9 @@ def run_loops(res, prog, fns, rid, floor_l3):
                 continue
             l3 += 1
             k = flow.loop_key(lp)
-            e = table.get(k)
+            e = table.get(slices.canon_loop_key(f, lp.exits))
             if e is not None and e.get('slices') is not None:
-                items = slices.loop_items(f, prog.crate(f.crate), sorted(lp.body))
+                items = slices.canon_loop_items(f, prog.crate(f.crate), sorted(lp.body))
                 dg, hs = slices.digest(items)
                 if dg not in e['slices']:
                     new = slices.new_items(items, e.get('slice_items'))
